@@ -33,8 +33,8 @@ def ylLoadLoop : List YlEntry → Ctx → Except Nat Ctx
     | (.error _, _) => .error EINVAL       -- "Unable to load module … specified by yang library data."
 
 /-- `ly_ctx_new_yldata` into a fresh context served by `repo` -/
-def ylLoad (repo : List ModSrc) (yl : YlData) (cfg : Cfg := {}) : Except Nat Ctx :=
-  match ylLoadLoop yl.modules { cfg := cfg, repo := repo, explicit := true } with
+def ylLoad (repo : List ModSrc) (yl : YlData) (cfg : Cfg := {}) (cfg2 : Cfg2 := {}) : Except Nat Ctx :=
+  match ylLoadLoop yl.modules { cfg := cfg, cfg2 := cfg2, repo := repo, explicit := true } with
   | .error e => .error e
   | .ok s =>
     match run s .compile with
